@@ -698,7 +698,7 @@ def voigt_averages(
     - `phase_fractions` — collection of volume fractions for each phase in
       `phase_assemblage` (values should sum to 1).
     - `elastic_tensors` — optional elastic tensors for mineral phases, in 6x6 Voigt
-      matrix format, ordered according to `phase_assemblage` (to implement custom
+      matrix format, indexable by `pydrex.core.MineralPhase` (to implement custom
       stiffness tensors, either modify the attributes of a `StiffnessTensors` instance
       or use a subclass)
 
@@ -731,7 +731,7 @@ def voigt_averages(
             for n in range(n_grains):
                 average_tensors[i] += _tensors.elastic_tensor_to_voigt(
                     _tensors.rotate(
-                        phase_tensors[phase_assemblage.index(mineral.phase)],
+                        phase_tensors[mineral.phase],
                         mineral.orientations[i][n, ...].transpose(),
                     )
                     * mineral.fractions[i][n]
